@@ -27,7 +27,7 @@ RULE = ("Cases: (document pair as JSON or XML files) x option vector (dict strat
         "incl. quoted; memo caches excluded) is taken before and after diff(), get_all_edits() and rendering in every "
         "registered output format and must be identical; 'repeat' - the same command line is run 3x in one process "
         "with different amounts of intervening allocation and a gc.collect(), stdout bytes and exit status must be "
-        "identical; 'seeds' - the parent generates the cases once, K child interpreters (PYTHONHASHSEED 0,1,2,.. plus "
+        "identical; 'seeds' - the parent generates the cases once (a quarter of them pairs with one re-typed scalar), K child interpreters, each replaying the batch in a different order (forward, reverse, rotated, interleaved) so that dependence on what the process did before shows as well, (PYTHONHASHSEED 0,1,2,.. plus "
         "values derived from VERIF_SEED; K=4 quick / 12 thorough) replay them through main() and must produce identical (status, stdout "
         "digest) lists; a sample additionally runs as true `python -m graphtage` subprocesses. Non-trivial: the script "
         "has >= 2 removes or inserts inside one mapping (where iteration order can show). Distinct by case hash.")
@@ -45,6 +45,7 @@ DESIGN_REF = 'DESIGN.md section 3, C07'
 SHRINK = {'docs': ['a', 'b'], 'lists': ['args']}
 SHRINK_BUDGET = {'quick': 25, 'thorough': 80}      # every attempt on a 'seeds' case starts 4 interpreters
 
+ORDERS = ['forward', 'reverse', 'rotate', 'interleave']      # replay order of the batch in successive children
 _PRE = {}           # case hash -> list of child results (filled by run_job for the 'seeds' kind)
 SEEDS = {'quick': ['0', '1', '2', 'random'], 'thorough': ['0', '1', '2', '3', '4', '5', '7', '11', '42', '12345', 'random', 'random']}
 
@@ -100,10 +101,25 @@ def cases(draw, kind):
         a = draw(D)
         b = draw(st.one_of(D, gen.mutate(a, D, small), gen.mutate(a, D, small)))
         inp = 'json'
+    elif draw(st.integers(0, 1)) == 0:
+        # one scalar re-typed or re-spelled (1 -> "1", true -> 1, ...): results must not depend on what was compared before
+        from .c02 import get, paths, put
+        small_ints = st.one_of(st.integers(0, 5), st.booleans(), st.none(), st.sampled_from(['1', '2', 'a']))
+        a = draw(st.recursive(small_ints, lambda ch: st.one_of(st.lists(ch, max_size=4), st.dictionaries(gen.keys, ch, max_size=3)),
+                              max_leaves=8))
+        leaves = [p for p in paths(a) if not isinstance(get(a, p), (list, dict))]
+        b = a
+        if leaves:
+            p = leaves[draw(st.integers(0, len(leaves) - 1))]
+            v = get(a, p)
+            b = put(a, p, int(v) if isinstance(v, str) and v.isdigit() else str(v))      # same spelling, other type
+        if draw(st.booleans()) and isinstance(a, list) and len(a) > 1:
+            a = a[1:] + a[:1]                                                             # equal scalars meet off the diagonal
+        inp = 'json'
     else:
         a, b = draw(gen.doc_pairs(10, 5))
         inp = 'json'
-    return {'kind': kind, 'input': inp, 'a': a, 'b': b, 'args': draw(arg_vectors())}
+    return {'kind': kind, 'input': inp, 'a': a, 'b': b, 'args': draw(arg_vectors()), 'via': draw(st.sampled_from(['json', 'json', 'yaml']))}
 
 
 def jobs(tier):
@@ -112,7 +128,7 @@ def jobs(tier):
         for s in range(16):
             js.append({'kind': 'purity', 'n': 120, 'shard': s})
             js.append({'kind': 'repeat', 'n': 25, 'shard': s})
-            js.append({'kind': 'seeds', 'n': 25, 'shard': s, 'tier': tier})
+            js.append({'kind': 'seeds', 'n': 80, 'shard': s, 'tier': tier})
     else:
         for s in range(16):
             js.append({'kind': 'purity', 'n': 1500, 'shard': s})
@@ -154,7 +170,8 @@ def spawn_children(cases_, seeds, parallel=1):
         env = dict(os.environ)
         env['PYTHONHASHSEED'] = sd
         env['PYTHONPATH'] = os.pathsep.join([REPO, VERIF, os.path.join(VERIF, '.deps')])
-        procs.append((sd, subprocess.Popen([sys.executable, '-m', 'vf.c07child', path], env=env, stdout=subprocess.PIPE,
+        mode = ORDERS[len(procs) % len(ORDERS)]
+        procs.append((sd, subprocess.Popen([sys.executable, '-m', 'vf.c07child', path, mode], env=env, stdout=subprocess.PIPE,
                                            stderr=subprocess.PIPE, cwd=VERIF)))
         if len(procs) % parallel == 0:
             for _, p in procs[-parallel:]:
@@ -230,8 +247,24 @@ def check_purity(case, out):
     elif '-ll' in args:
         le = 'same'
     fam = {'family': case['input'], 'a': case['a'], 'b': case['b'], 'ds': ds, 'le': le}
-    with guard('build'):
-        a, b = gen.build(fam, 'a'), gen.build(fam, 'b')
+    a = b = None
+    if case['input'] == 'json' and case.get('via') == 'yaml':
+        # the same documents loaded through the YAML file type: its strings are unquoted (quoted=False)
+        try:
+            import yaml
+            opts = common.build_options(ds, le)
+            pa, pb = cli.write_file(yaml.safe_dump(case['a']), 'yml', name='pa'), cli.write_file(yaml.safe_dump(case['b']), 'yml', name='pb')
+            try:
+                ft = graphtage.FILETYPES_BY_TYPENAME['yaml']
+                a, b = ft.build_tree(pa, opts), ft.build_tree(pb, opts)
+            finally:
+                cli.cleanup_files(pa, pb)
+            out.label('purity-via-yaml-loader')
+        except Exception:
+            a = b = None
+    if a is None:
+        with guard('build'):
+            a, b = gen.build(fam, 'a'), gen.build(fam, 'b')
     sa, sb = snapshot(a), snapshot(b)
 
     def compare(after_what):
@@ -329,7 +362,8 @@ def check(case):
         if res is None:
             res = [o[0] for o in spawn_children([case], ['0', '1', '2', '3141592653'], parallel=4)]
         if any(x != res[0] for x in res[1:]):
-            out.fail('hash-seed-changes-output', f"args {case['args']}: (status, stdout digest, exception, length) per PYTHONHASHSEED: {res}")
+            out.fail('output-differs-across-processes', f"args {case['args']}: (status, stdout digest, exception, length) per child interpreter "
+                     f"(different PYTHONHASHSEED and different replay order of the batch): {res}")
         out.nontrivial = mapping_multi(case)
         out.info = {'result': res[0], 'children': len(res)}
     return out
